@@ -58,7 +58,7 @@ fn c10(ctx: &Ctx) -> i32 {
     let cfg = SeqCfg {
         n_ops: (30, 70),
         gcfg: GenCfg { snapshot_weight: 14, mls_weight: 18, message_weight: 40, over_limit: true, nid_collision: true },
-        clean_pct: 85,
+        clean_pct: 50,
         dump_every: 10,
     };
     let out = if let Some(rp) = load_replay(ctx) {
@@ -102,7 +102,7 @@ fn c09(ctx: &Ctx) -> i32 {
     let cfg = SeqCfg {
         n_ops: (30, 60),
         gcfg: GenCfg { snapshot_weight: 30, mls_weight: 25, message_weight: 25, over_limit: false, nid_collision: false },
-        clean_pct: 80,
+        clean_pct: 50,
         dump_every: 1,
     };
     let out = if let Some(rp) = load_replay(ctx) {
